@@ -397,8 +397,8 @@ func serializeIPv6HeaderTLVOptions(buf []byte, options []*ipv6HeaderTLVOption, f
 		length += l
 	}
 	if fixLengths {
-		pad := length % 8
-		if pad != 0 {
+		if length%8 != 0 {
+			pad := 8 - length%8
 			if !dryrun {
 				serializeTLVOptionPadding(buf[length-2:], pad)
 			}
